@@ -79,6 +79,10 @@ type hharness struct {
 	backlog   bool
 	failSig   string
 	failMsg   string
+	total     int // items the producer sends in the whole execution
+	take      int // items after which the consumer stops receiving (== total: it ranges until close)
+	pLo, pHi  int // the running producer sends pLo..pHi
+	held      int // deep: largest backlog seen at a quiescent point
 }
 
 func (h *hharness) fail(sig, msg string) {
@@ -90,7 +94,7 @@ func (h *hharness) fail(sig, msg string) {
 // producer is the clients' own enqueue idiom:
 // select { case c.enqueueNotification <- n: case <-c.quit: }
 func (h *hharness) producer() {
-	for i := 1; i <= h.sc.N; i++ {
+	for i := h.pLo; i <= h.pHi; i++ {
 		idx, _, _ := vsched.Select("producer.send", vsched.SendCase(h.in, item(i)), vsched.RecvCase(h.quit))
 		if idx != 0 {
 			h.aborted = true
@@ -104,7 +108,7 @@ func (h *hharness) producer() {
 // receiving for good after K items (a consumer that is infinitely slow).
 func (h *hharness) consumer() {
 	for {
-		if h.sc.K < h.sc.N && len(h.recv) >= h.sc.K {
+		if h.take < h.total && len(h.recv) >= h.take {
 			return
 		}
 		v, ok := vsched.RecvAt("consumer.recv", h.out)
@@ -143,20 +147,20 @@ func (h *hharness) stopped() bool { return vsched.IsClosed(h.quit) }
 
 func (h *hharness) onRecv(v interface{}) {
 	x, ok := itemIndex(v)
-	if !ok || x < 1 || x > h.sc.N {
-		h.fail("alien:item-never-sent", fmt.Sprintf("scenario %s: consumer received %v after %v, which the producer never sent (sent 1..%d)", h.sc, v, h.recv, h.sc.N))
+	if !ok || x < 1 || x > h.total {
+		h.fail("alien:item-never-sent", fmt.Sprintf("scenario %s: consumer received %v after %v, which the producer never sent (sent 1..%d)", h.sc, v, abbrev(h.recv), h.total))
 		return
 	}
 	for _, r := range h.recv {
 		if r == x {
 			h.recv = append(h.recv, x)
-			h.fail("dup:item-twice", fmt.Sprintf("scenario %s: consumer received item %d twice: %v", h.sc, x, h.recv))
+			h.fail("dup:item-twice", fmt.Sprintf("scenario %s: consumer received item %d twice: %v", h.sc, x, abbrev(h.recv)))
 			return
 		}
 	}
 	if n := len(h.recv); n > 0 && x < h.recv[n-1] {
 		h.recv = append(h.recv, x)
-		h.fail("order:out-of-order", fmt.Sprintf("scenario %s: consumer received %v but the items were sent as 1..%d in order", h.sc, h.recv, h.sc.N))
+		h.fail("order:out-of-order", fmt.Sprintf("scenario %s: consumer received %v but the items were sent as 1..%d in order", h.sc, abbrev(h.recv), h.total))
 		return
 	}
 	if x != len(h.recv)+1 && !h.stopped() {
@@ -182,10 +186,7 @@ func (h *hharness) Observe() {
 	}
 }
 
-func (h *hharness) done(name string) bool {
-	t := h.s.Thread(name)
-	return t == nil || t.Done()
-}
+func (h *hharness) done(name string) bool { return allDone(h.s, name) }
 
 func (h *hharness) Panicked(t *vsched.Thread) {
 	h.fail("panic:"+t.PanicSite, fmt.Sprintf("scenario %s: thread %s panicked at %s: %s (received so far %v)", h.sc, t.Name, t.PanicSite, t.PanicVal, h.recv))
@@ -194,7 +195,14 @@ func (h *hharness) Panicked(t *vsched.Thread) {
 func (h *hharness) Failed() bool { return h.failSig != "" }
 
 func (h *hharness) describe() string {
-	return fmt.Sprintf("sent %d of %d, received %v; threads: %s", h.sent, h.sc.N, abbrev(h.recv), h.s.Describe())
+	return fmt.Sprintf("sent %d of %d, received %v; threads: %s", h.sent, h.pHi, abbrev(h.recv), h.s.Describe())
+}
+
+func abbrevV(r []interface{}) string {
+	if len(r) <= 12 {
+		return fmt.Sprint(r)
+	}
+	return fmt.Sprintf("%v ... %v (%d items)", r[:4], r[len(r)-6:], len(r))
 }
 
 func abbrev(r []int) string {
@@ -215,8 +223,8 @@ func (h *hharness) checkDrained(consumerPresent bool) bool {
 		}
 		return false
 	}
-	if consumerPresent && len(h.recv) != h.sc.N {
-		h.fail("loss:item-missing", fmt.Sprintf("scenario %s: all %d sends completed, nothing more can arrive, and the consumer is missing %v: %s", h.sc, h.sc.N, missing(h.recv, h.sc.N), h.describe()))
+	if consumerPresent && len(h.recv) != h.take {
+		h.fail("loss:item-missing", fmt.Sprintf("scenario %s: all %d sends completed, nothing more can arrive, and the consumer (asking for %d items) is missing %v: %s", h.sc, h.sent, h.take, missing(h.recv, h.take), h.describe()))
 		return false
 	}
 	if h.sc.Kind == "r" && !h.done("reader") {
@@ -291,6 +299,8 @@ func (h *hharness) Quiescent() bool {
 		}
 		h.checkStopped()
 		return false
+	case "deep":
+		return h.deepQuiescent()
 	default: // c, d
 		h.checkStopped()
 		if h.gap && !h.Failed() {
@@ -311,13 +321,17 @@ func (h *hharness) EndOfExecution(trace []string, complete bool) {
 	if h.failSig == "" {
 		return
 	}
+	what := "schedule = scheduler decisions thread@site:case executed against the extracted handler loop"
+	if h.sc.Kind == "deep" {
+		what = deepWhat + " the extracted handler loop"
+	}
 	h.sh.record(h.failSig, h.failMsg, replay{
-		Scenario: h.sc, What: "schedule = scheduler decisions thread@site:case executed against the extracted handler loop",
+		Scenario: h.sc, What: what,
 		Received: append([]int{}, h.recv...), Sent: h.sent, Threads: h.s.Describe(), Schedule: append([]string{}, trace...)})
 }
 
 func setupHandler(sh *shard, sc scen, s *vsched.Sched) vsched.Harness {
-	h := &hharness{sh: sh, sc: sc, s: s}
+	h := &hharness{sh: sh, sc: sc, s: s, total: sc.N + sc.M, take: sc.K, pLo: 1, pHi: sc.N}
 	h.cl = newClient(sc.Comp)
 	for _, n := range []string{"enqueueNotification", "dequeueNotification", "quit", "currentBlock"} {
 		if !h.cl.VerifHasChan(n) {
